@@ -217,7 +217,7 @@ theorem Inv3.stepL (h : Inv3 c) {c' : BC} (st : CStepL c c') (hn : c'.a.rng ≠ 
   have hb := h.base.stepL st hn
   cases st with
   | act v ws gs hs => exact h.act hs hn
-  | dlv m rest deaf hba =>
+  | dlv m rest deaf hba _ =>
     refine h.recv _ rest c.baOpen hb ?_
     intro f hm
     cases deaf <;> simp only [Bool.false_eq_true, if_true, if_false, inMsgs_append, inMsgs, List.mem_append] at hm ⊢ <;>
